@@ -123,10 +123,37 @@ def run(ctx):
              "stopChild no longer returns when its target does not resolve", holder.node)
     # ---- R8 unresolved / ambiguous targets are dropped -------------------------------------
     rt = p.method("BaseInterpreter", "_resolve_actor_target")
-    amb = [x for x in own_nodes(rt.node) if isinstance(x, ast.If) and "len(matches) > 1" in norm(x.test)]
-    ok = bool(amb) and any(isinstance(s_, ast.Return) and (s_.value is None or (isinstance(s_.value, ast.Constant) and s_.value.value is None)) for s_ in amb[0].body)
+    from sa.util import canon_atom
+    from sa.cfg import split_atoms
+    amb = [x for x in own_nodes(rt.node) if isinstance(x, ast.If) and canon_atom(x.test)[0] in (">", ">=") and canon_atom(x.test)[1].startswith("len(")]
+    ok = any(canon_atom(x.test)[3] is True and canon_atom(x.test)[2] == ("1" if canon_atom(x.test)[0] == ">" else "2") and
+             any(isinstance(s_, ast.Return) and (s_.value is None or (isinstance(s_.value, ast.Constant) and s_.value.value is None)) for s_ in x.body) for x in amb)
     c.ob("R8", ok, rt, "ambiguous-target-resolves-to-none", "an address matching several children resolves to no actor (the send is dropped with a warning)" if ok else
          "an ambiguous address no longer resolves to None: the message goes to an arbitrary one of the matching children", rt.node)
+    # ---- R10 exactly the addressed actor: an actor is handed out only under a positive, simple test of the address ----
+    spec = rt.params[1] if len(rt.params) > 1 else "spec"
+    n10 = 0
+    for r_ in own_nodes(rt.node):
+        if not (isinstance(r_, ast.Return) and r_.value is not None) or (isinstance(r_.value, ast.Constant) and r_.value.value is None):
+            continue
+        if norm(r_.value) == spec:
+            continue                                  # the address already is an interpreter
+        n10 += 1
+        atoms = guards_at(rt, r_)
+        simple = [canon_atom(a, pol) for a, pol in atoms if isinstance(a, (ast.Compare, ast.Call, ast.Name, ast.Attribute)) or
+                  (isinstance(a, ast.UnaryOp) and isinstance(a.op, ast.Not))]
+        consts = [a for a, pol in atoms if isinstance(a, ast.Constant)]
+        if isinstance(r_.value, ast.Subscript) and norm(r_.value.value) == "matches":
+            ok = ("==", "1", "len(matches)", True) in simple or ("==", "len(matches)", "1", True) in simple
+            why = "a member of the candidate list is returned only when the list has exactly one element"
+        else:
+            ok = any(t[3] is True and t[0] in ("in", "==", "is") and spec in (t[1].split(".")[0], t[2].split(".")[0], t[1], t[2]) for t in simple)
+            why = "the returned actor is tied to the address by a positive membership / equality test"
+        ok = ok and not consts
+        c.ob("R10", ok, rt, f"actor-returned-for-its-address:{norm(r_.value)[:30]}", why if ok else
+             f"'{stmt_text(r_)}' is reachable without a positive simple test that ties the actor to the address '{spec}' (guards: "
+             f"{[norm(a) if pol else 'not ' + norm(a) for a, pol in atoms][-3:]}): an event can be delivered to an actor that was not addressed", r_)
+    c.expect("R10", "actor-returning statements of the address resolver", n10, 4, rt)
     for v in VIEWS:
         b = roles(ctx, v).builtin
         funcs_ = [b] + [t for s_ in res.callsites(b, v) if s_.recv == "self" for t in s_.targets if t.name in ("_stop_child_actor",)]
